@@ -344,11 +344,30 @@ fn run_case(case: &Case) -> Res {
     let before = if crate::monitors::grid_monitors() { Some(w.snapshot()) } else { None };
     let so = w.setup_channel(DBID, &setup);
     crate::monitors::around(&w, &before, &so, "setup_channel", &mut r.mon);
+    // "becomes usable only with ...": a refused setup must leave the slot a stub, and repeating
+    // the identical request must be refused again; otherwise the channel did become usable and
+    // the case counts as accepted.
+    let mut after_refusal = "";
+    let so = match so {
+        Outcome::Err(x) => {
+            r.calls += 1;
+            if w.peek_chan(DBID, |_| ()).is_some() {
+                after_refusal = "ready-after-refusal";
+                Outcome::Ok(())
+            } else if w.setup_channel(DBID, &setup).is_ok() {
+                after_refusal = "accepted-on-identical-retry";
+                Outcome::Ok(())
+            } else {
+                Outcome::Err(x)
+            }
+        }
+        o => o,
+    };
     if case.entry == Entry::Setup {
         match so {
             Outcome::Ok(_) => {
                 r.accepted = true;
-                r.class = "accepted".into();
+                r.class = if after_refusal.is_empty() { "accepted".into() } else { after_refusal.into() };
             }
             Outcome::Err(x) => {
                 r.refused = true;
@@ -477,7 +496,7 @@ fn run_case(case: &Case) -> Res {
     match o {
         Outcome::Ok(_) => {
             r.accepted = true;
-            r.class = "accepted".into();
+            r.class = if after_refusal.is_empty() { "accepted".into() } else { format!("accepted-on-channel-{}", after_refusal) };
         }
         Outcome::Err(x) => {
             r.refused = true;
@@ -496,7 +515,7 @@ fn finish(case: &Case, e: &Eff, mut r: Res) -> Res {
         let kinds: Vec<String> = case.devs.iter().map(dev_kind).collect();
         r.vio = Some((
             format!("C05:{:?}:accepted-outside-bound:{}", case.entry, r.ref_why),
-            format!("{:?} accepted although {} (policy {}, onchain {}, use_chain_state {}, deviations {:?} [{}], effective setup {:?} type {} n {} content {:?} chain {:?})", case.entry, r.ref_why, case.pol, case.onchain, case.ucs, case.devs, kinds.join("+"), e.v, e.ctype, e.n, e.c, e.facts),
+            format!("{:?} {} although {} (policy {}, onchain {}, use_chain_state {}, deviations {:?} [{}], effective setup {:?} type {} n {} content {:?} chain {:?})", case.entry, r.class, r.ref_why, case.pol, case.onchain, case.ucs, case.devs, kinds.join("+"), e.v, e.ctype, e.n, e.c, e.facts),
         ));
     }
     r
